@@ -9,13 +9,13 @@ import c20_impl
 
 RULE = ("fresh interpreters (one subprocess per sequence): all 13 first-imports (the package and its 12 modules), all 156 ordered pairs (quick: a seeded sample of 60), random permutations of all "
         "13 and random shorter sequences with repetitions; each dumps success / exception class and, per loaded module, the public names with an identity label (smallest 'module.name' bound to "
-        "the same object); judged (a) against the model's prediction run on the import programs regenerated from the source and (b) on the implementation alone: every import succeeds and every "
-        "loaded module shows exactly the names and identities it shows when imported first. Non-trivial: sequences of >= 2 modules or a first import of a module that takes part in the "
+        "the same object) and, for names bound to plain data (tuples, dicts, strings, numbers, with package classes inside named by qualified name), a digest of the value; judged (a) against the model's prediction run on the import programs regenerated from the source and (b) on the implementation alone: every import succeeds and every "
+        "loaded module shows exactly the names, identities and data values it shows when the same set of modules is imported in sorted order. Non-trivial: sequences of >= 2 modules or a first import of a module that takes part in the "
         "track/instrument/sync/globalevents cycle; distinct by sequence")
 ASSUMPTIONS = ["the abstract import protocol of Model/Imports.v is CPython's (validated by this correspondence; the theorem is about the model)",
                "import-time calls do not reach import-sensitive code through objects passed under other names (tools/extract_imports.py fails closed on the cases it can see)"]
 
-IN_TYPE = "(list (modname * list (name * String.string)) * list modname)"
+IN_TYPE = "((list (modname * list (name * String.string)) * list (modname * list (name * String.string))) * list modname)"
 OUT_TYPE = "C20_obs"
 EXTRA = "From CP Require Import Harness.H Model.Imports Gen.Imports.\nFrom Coq Require String.\nImport String.StringSyntax.\nOpen Scope string_scope.\n"
 VERDICT = "fun i o => C20_verdict_N import_progs (snd i) o"
@@ -33,7 +33,11 @@ def cs(s):
 def obs_term(obs):
     mods = coq_list("(%s, %s)" % (cs(m), coq_list("(%s, %s)" % (cs(n), cs(l)) for n, l in sorted(names.items()))) for m, names in sorted(obs.get("modules", {}).items()))
     alln = coq_list("(%s, %s)" % (cs(m), coq_list(cs(n) for n in sorted(names))) for m, names in sorted(obs.get("all_public", {}).items()))
-    return "(%s, %s, %s)" % (coq_bool(bool(obs.get("ok"))), mods, alln)
+    return "(%s, %s, %s, %s)" % (coq_bool(bool(obs.get("ok"))), mods, alln, vals_term(obs))
+
+
+def vals_term(o):
+    return coq_list("(%s, %s)" % (cs(m), coq_list("(%s, %s)" % (cs(n), cs(l)) for n, l in sorted(names.items()))) for m, names in sorted(o.get("values", {}).items()))
 
 
 def observe_all(seqs):
@@ -54,7 +58,7 @@ def build_cases(seqs):
     out = []
     for seq, o in zip(seqs, obs):
         b = base.get(tuple(sorted(o.get("loaded", [])))) if o.get("ok") else None
-        bterm = mods_term(b) if b is not None and b.get("ok") else "[]"
+        bterm = "(%s, %s)" % (mods_term(b), vals_term(b)) if b is not None and b.get("ok") else "([], [])"
         out.append(dict(case=dict(seq=seq), in_term="(%s, %s)" % (bterm, coq_list(cs(m) for m in seq)), out_term=obs_term(o),
                         nontrivial=len(seq) >= 2 or (len(seq) == 1 and seq[0] in CYCLE),
                         tags=["len=%d" % min(len(seq), 13), "ok" if o.get("ok") else "exc=%s" % o.get("exc")],
